@@ -10,6 +10,9 @@ def handle (fn : String) (args : List Json) : String :=
   | "compact" => match args with
     | [a0] => (do let x0 ← Wire.decStr a0; pure (Wire.respondWith Wire.encStr (Gen.isil.compact x0)) : Option String).getD "badargs"
     | _ => "badargs"
+  | "format" => match args with
+    | [a0] => (do let x0 ← Wire.decStr a0; pure (Wire.respondWith Wire.encStr (Gen.isil.format x0)) : Option String).getD "badargs"
+    | _ => "badargs"
   | "is_valid" => match args with
     | [a0] => (do let x0 ← Wire.decStr a0; pure (Wire.respondWith Wire.encBool (Gen.isil.is_valid x0)) : Option String).getD "badargs"
     | _ => "badargs"
